@@ -156,6 +156,44 @@ def build_data(tab, N, ssh, real, dtype):
     return a, cols
 
 
+# ------------------------------------------------------------------ data kinds and same-object histories
+# native float / complex widths, integer sampler data, non-native byte order and extended precision:
+# plain Signal has no dtype contract, every one of these is legal input
+DTYPES = {"f8": np.dtype("float64"), "f4": np.dtype("float32"), "c16": np.dtype("complex128"), "c8": np.dtype("complex64"),
+          "i2": np.dtype("int16"), "i1": np.dtype("int8"),
+          ">c16": np.dtype("complex128").newbyteorder(), ">c8": np.dtype("complex64").newbyteorder(),
+          ">f8": np.dtype("float64").newbyteorder(), ">i2": np.dtype("int16").newbyteorder(),
+          "c32": np.dtype(np.clongdouble), "f16": np.dtype(np.longdouble)}
+KIND_CYCLE = ["c16", "f8", "c8", "f4", "i2", ">c16", "f16", "i1", "c32", ">f8", ">c8", ">i2"]
+NATIVE = ("f8", "f4", "c16", "c8")        # only for these does "dtype unchanged" follow from the class contracts
+
+
+def is_real(kind):
+    return DTYPES[kind].kind != "c"
+
+
+def inplace_update(z, style, kind):
+    """a sanctioned in-place change of the data of signal z (same object, same array);
+    returns the gain applied, or None if this form is not available"""
+    d = DTYPES[kind]
+    g = (0.5 - 1.5j) if d.kind == "c" else (2 if d.kind == "i" else -1.5)
+    try:
+        if style % 3 == 0:
+            np.multiply(z, g, out=z)
+        elif style % 3 == 1:
+            z *= g
+        else:
+            z.data[...] = np.asarray(z.data) * g
+    except Exception:  # noqa
+        return None
+    return g
+
+
+def fresh_copy(z):
+    """a new signal object with a copy of the data z holds now and the same metadata"""
+    return type(z).like(z, np.array(np.asarray(z.data), copy=True))
+
+
 RATES = [(1, u.Hz), (1, u.kHz), (7, u.Hz), (800 / 3, u.MHz), (32, u.MHz), (2, u.GHz), (0.5, u.Hz), (1, u.mHz), (10, u.Hz), (3, u.kHz)]
 
 
